@@ -462,7 +462,40 @@ def work_inddev(job):
                                   {'nl': nl, 'opts': opts, 'acc': ACC_IND, 'x': y, 'objs': ''}))
                 elif got0: st['violations_expected_and_reported'] += 1
                 else: st['clean_expected_and_clean'] += 1
-    return dict(st), viols[:20], sorted(classes), {'family': 'indicator binary at 1-1e-8', 'models': len(sh)}
+    # idealistic modes (expression values recomputed from the original variables): the value the solver reports for the
+    # reformulated if-then-else (the variable defined only through the indicator rows) is off by 0.3 - whatever the direction,
+    # a recomputed expression value then differs from the reported one and the point must be reported
+    for fam, name, m in sh:
+        nl = m.nl(); nv = len(m.vars)
+        for mname, bits in (('ideal-32+64', 96), ('ideal-32+64+512', 608)):
+            opts = 'sol:chk:mode=%d' % bits
+            r = _srv.request('convert', nl=nl, opts=opts, acc=ACC_IND)
+            st['conversions'] += 1
+            if r.get('status') != 'ok' or 'PLApprox' in r.get('warnings', ''): st['skipped_conversion'] += 1; continue
+            D = Delivered(r, nv)
+            funcres = {c['data'].get('res_var') for c in D.cons if isinstance(c['data'], dict) and c['data'].get('res_var', -1) >= 0}
+            tv = sorted({v for c in D.cons if c['type'].startswith('IndicatorConstraint[') for v in c['data']['con']['body']['vars']
+                         if v >= nv and v not in funcres})
+            if len(tv) != 1: st['inddev_not_one_reformulated_result'] += 1; continue
+            t = tv[0]
+            for pt in m.grid():
+                pt = list(pt)
+                bounds_ok, cons_ok = ref_status(m, pt, 'grid')
+                if not (bounds_ok and cons_ok): continue
+                a = true_values(D, r, pt, nv)
+                if a is None: st['aux_not_determined'] += 1; continue
+                for sgn in (-1, 1):
+                    x = [a[i] for i in range(D.nv)]; x[t] += 0.3 * sgn
+                    if not (D.vars[t][0] <= x[t] <= D.vars[t][1]): continue
+                    v = _srv.request('check', x=','.join(repr(float(q)) for q in x), objs='', infeas='0')
+                    st['checks'] += 1
+                    classes.add('inddev|%s|reformulated result off|%s' % (mname, 'silent' if v.get('ok') else 'reported'))
+                    if v.get('ok'):
+                        viols.append(('C07 missed-violation mode=%s: value reported for a reformulated expression (if-then-else as indicator rows) differs from its mathematical value by 0.3' % mname,
+                                      {'model': m.describe(), 'point': pt, 'x': x, 'var': t, 'true_value': a[t], 'opts': opts, 'answer': v},
+                                      {'nl': nl, 'opts': opts, 'acc': ACC_IND, 'x': x, 'objs': ''}))
+                    else: st['violations_expected_and_reported'] += 1
+    return dict(st), viols[:20], sorted(classes), {'family': 'indicator binary at 1-1e-8; reformulated result off by 0.3 in idealistic modes', 'models': len(sh)}
 
 
 
